@@ -13,7 +13,7 @@ from vlib.build import Flavour, build
 from vlib.model import MNode, MTree, resolve_before
 from vlib.observe import Uids, index_probe, snapshot, walk
 
-from nutree import AmbiguousMatchError, TreeError, UniqueConstraintError
+from nutree import AmbiguousMatchError, SkipBranch, TreeError, UniqueConstraintError
 
 E_UNIQUE = (UniqueConstraintError,)
 E_POSITION = (ValueError, AssertionError, TreeError)
@@ -312,13 +312,14 @@ class Engine:
                 kind = anchor.kind  # "Add a new node of same kind"
             elif kind is None:
                 kind = "child"
-        nid = opts.get("nid")
+        nid_arg = opts.get("nid")
+        nid = int(nid_arg) if nid_arg is not None else None  # documented as str|int, kept as int
         dup_nid = nid is not None and any(r.node_id == nid for r in walk(self.tree).pre)
         kw = {}
         if did is not None:
             kw["data_id"] = did
         if nid is not None:
-            kw["node_id"] = nid
+            kw["node_id"] = nid_arg
         rparent = self.real(parent)
         if how == "add":
             mb, rb = self.decode_before(parent, before_json)
@@ -1049,24 +1050,46 @@ class Engine:
         return p
 
     # ---- filter -----------------------------------------------------------------------------------------------------
-    def _op_filter(self, accept):
-        accept = set(accept)
+    def _op_filter(self, accept, skip0=()):
         mt = self.model
         fl = self.fl
 
+        def labels(items):  # an int stands for "the label of that node" (resolved now)
+            out = set()
+            for x in items:
+                if isinstance(x, int) and not isinstance(x, bool):
+                    m = self.node(x)
+                    if m is not None:
+                        out.add(fl.label(m.data))
+                else:
+                    out.add(x)
+            return out
+
+        accept = labels(accept)
+        skip0 = labels(skip0)
+
         def pred(node):
-            return fl.label(node.data) in accept
+            lab = fl.label(node.data)
+            if lab in skip0:
+                return SkipBranch(and_self=False)  # documented: keep the node, drop what is below it
+            return lab in accept
 
         def apply():
             def rec(n):
                 kept = []
                 for c in n.children:
-                    rec(c)
-                    if fl.label(c.data) in accept or c.children:
+                    lab = fl.label(c.data)
+                    if lab in skip0:
+                        for g in c.children:
+                            g.parent = None
+                        c.children = []
+                        kept.append(c)
+                    elif rec(c) or lab in accept:
                         kept.append(c)
                     else:
                         c.parent = None
                 n.children = kept
+                return bool(kept)
 
             rec(mt.root)
 
